@@ -168,29 +168,30 @@ func (c *ChunkBuffer) ChunkedString(level, offset int) string {
 			buf.WriteString(c.chunkString(state, chunk.buffer))
 		// prefix operator
 		case Prefix:
-			if next := c.nextChunk(); next != nil {
-				buf.WriteString(c.chunkString(state, chunk.buffer+next.buffer))
-			}
+			// prefix operators may be stacked ("!!foo") or applied to a group ("!(foo || bar)")
+			operand := c.readOperand(state, chunk)
+			operand += c.combineInfixChunk(state)
+			buf.WriteString(c.chunkString(state, operand))
 		// group operator
 		case Group:
 			// If group operator, inside expressions should be printed on the same line
-			if next := c.nextChunk(); next != nil {
-				buf.WriteString(c.chunkGroupOperator(state, next))
-			}
+			operand := c.readOperand(state, chunk)
+			operand += c.combineInfixChunk(state)
+			buf.WriteString(c.chunkString(state, operand))
 		// infix operator
 		case Infix:
 			buf.WriteString(c.chunkString(state, chunk.buffer))
 		// Otherwise (token), create chunk string
 		default:
 			// Pre-combine infix operator that must be placed on the same line
-			chunk.buffer += c.combineInfixChunk()
+			chunk.buffer += c.combineInfixChunk(state)
 			buf.WriteString(c.chunkString(state, chunk.buffer))
 		}
 	}
 }
 
 // Read peek chunk and combine if the chunk is placed on the same line
-func (c *ChunkBuffer) combineInfixChunk() string {
+func (c *ChunkBuffer) combineInfixChunk(state *ChunkState) string {
 	var peek *Chunk
 	var expr bytes.Buffer
 	var index int
@@ -234,16 +235,35 @@ OUT:
 		}
 		break
 	}
-	// Finally, add token buffer
-	expr.WriteString(" " + peek.buffer)
-
 	// Forward index position to be read
 	for index > 0 {
 		c.nextChunk()
 		index--
 	}
 
+	// Finally, add the right operand, which may be a token, a prefixed token or a whole group
+	expr.WriteString(" " + c.readOperand(state, peek))
+
 	return expr.String()
+}
+
+// readOperand() returns the operand string that starts at the provided (current) chunk:
+// a single token, a token with prefix operators like "!foo", or a group like "!(foo || bar)".
+func (c *ChunkBuffer) readOperand(state *ChunkState, chunk *Chunk) string {
+	var operator string
+
+	for chunk != nil && chunk.Type == Prefix {
+		operator += chunk.buffer
+		chunk = c.nextChunk()
+	}
+	switch {
+	case chunk == nil:
+		return operator
+	case chunk.Type == Group && chunk.buffer == "(":
+		return operator + c.readGroup(state)
+	default:
+		return operator + chunk.buffer
+	}
 }
 
 // nextLine() returns line feed and indent string
@@ -271,25 +291,52 @@ func (c *ChunkBuffer) chunkLineComment(state *ChunkState, chunk *Chunk) string {
 	return buf.String()
 }
 
-// chunkGroupOperator() returns chunk group expression string
-func (c *ChunkBuffer) chunkGroupOperator(state *ChunkState, chunk *Chunk) string {
-	expr := chunk.buffer
+// readGroup() reads chunks up to the parenthesis that closes the group whose opening
+// parenthesis has just been consumed, and returns the group expression string.
+// Nested groups and prefix operators inside the group are kept intact.
+func (c *ChunkBuffer) readGroup(state *ChunkState) string {
+	expr := "("
+	depth := 1
+	// tight is true when the next chunk must follow without a white space
+	tight := true
 
 	for {
 		next := c.nextChunk()
 		if next == nil {
-			return c.chunkString(state, "("+expr+")")
+			return expr + strings.Repeat(")", depth)
 		}
 
 		switch {
 		case next.isLineComment():
+			if !tight {
+				expr += " "
+			}
 			expr += next.buffer
 			expr += c.nextLine(state)
 			state.reset()
-		case next.buffer == ")":
-			return c.chunkString(state, "("+expr+")")
+			tight = true
+		case next.Type == Group && next.buffer == ")":
+			expr += ")"
+			depth--
+			if depth == 0 {
+				return expr
+			}
+			tight = false
+		case next.Type == Group || next.Type == Prefix:
+			if next.Type == Group {
+				depth++
+			}
+			if !tight {
+				expr += " "
+			}
+			expr += next.buffer
+			tight = true
 		default:
-			expr += " " + next.buffer
+			if !tight {
+				expr += " "
+			}
+			expr += next.buffer
+			tight = false
 		}
 	}
 }
